@@ -551,16 +551,129 @@ fn crash_case(case: u64, rng: &mut Rng, rep: &mut Report) {
     rep.count("crash_images_continued_with_commit_and_gc", images);
 }
 
+/// A save of meta.json fails (commit, or the end of a merge of committed segments) and garbage
+/// collection runs on the same writer before anything else succeeds: the commit that is still on
+/// storage must keep all its files.
+fn failed_save_case(case: u64, rng: &mut Rng, rep: &mut Report) {
+    let cfg = ExecCfg { threads: 1, merge_policy: false, sort: None, budget_per_thread: 15_000_000 };
+    let mon = MonDir::new(MonCfg { monitors: true, ..Default::default() });
+    let mut ex = match Exec::create(Box::new(mon.clone()), cfg, Some(mon.clone())) {
+        Ok(e) => e,
+        Err(e) => {
+            rep.violation("api-error:create", json!(e));
+            return;
+        }
+    };
+    rep.eval();
+    let mut g = HistGen::new();
+    let nseg = rng.urange(2, 4);
+    for _ in 0..nseg {
+        for _ in 0..rng.urange(2, 5) {
+            ex.step(&Op::Add(g.doc(rng, 3)));
+        }
+        ex.step(&Op::Commit);
+    }
+    // give one segment a first generation of deletes (a second one supersedes the .del file)
+    if rng.bool() {
+        ex.step(&Op::DeleteTerm(Pred::Grp(rng.below(3))));
+        ex.step(&Op::Commit);
+    }
+    for (sig, d) in ex.problems.drain(..) {
+        if !is_known("C02", &sig) {
+            rep.violation(format!("live:{sig}"), json!({"case": case, "detail": d}));
+            return;
+        }
+    }
+    let variant = rng.below(3);
+    mon.add_fault(
+        OpPred::kind(OpKind::AtomicWrite).path("meta.json"),
+        0,
+        FaultMode::Once,
+        std::io::ErrorKind::Other,
+    );
+    ex.errors_are_violations = false;
+    let what = match variant {
+        0 => {
+            for grp in 0..3 {
+                ex.step(&Op::DeleteTerm(Pred::Grp(grp)));
+            }
+            ex.step(&Op::Add(g.doc(rng, 3)));
+            ex.step(&Op::Commit);
+            "commit"
+        }
+        1 => {
+            ex.step(&Op::Merge { pick: rng.next_u64(), n: 4, wait: true });
+            "merge"
+        }
+        _ => {
+            ex.step(&Op::DeleteTerm(Pred::Grp(rng.below(3))));
+            ex.step(&Op::PrepCommit { payload: None, abort: false });
+            "prepare+commit"
+        }
+    };
+    ex.problems.clear();
+    let fired = mon.faults_fired() > 0;
+    rep.count(if fired { "failed_save:fault_fired" } else { "failed_save:fault_not_reached" }, 1);
+    let present_before: BTreeSet<String> = mon.list_files().into_iter().collect();
+    for _ in 0..rng.urange(1, 2) {
+        if let Some(w) = ex.writer.as_ref() {
+            let _ = w.garbage_collect_files().wait();
+        }
+    }
+    let present_after: BTreeSet<String> = mon.list_files().into_iter().collect();
+    let mut errs: Vec<(String, Value)> = vec![];
+    match mon.raw_bytes("meta.json").map(|b| tvmon::mondir::meta_referenced_files(&b)) {
+        Some(Ok(refs)) => {
+            let gone: Vec<&String> = refs
+                .iter()
+                .map(|(f, _)| f)
+                .filter(|f| present_before.contains(*f) && !present_after.contains(*f))
+                .collect();
+            if !gone.is_empty() {
+                let kinds: BTreeSet<&str> = gone.iter().map(|f| file_kind(f)).collect();
+                errs.push((
+                    format!("failed-save:{what}:gc-removed-files-of-the-commit-on-storage:{}", kinds.into_iter().collect::<Vec<_>>().join("+")),
+                    json!({"gone": gone.iter().take(12).collect::<Vec<_>>()}),
+                ));
+            }
+        }
+        Some(Err(e)) => errs.push(("failed-save:meta.json-unparsable".into(), json!(e))),
+        None => errs.push(("failed-save:meta.json-missing".into(), json!(null))),
+    }
+    for v in mon.take_violations() {
+        if v.sig.starts_with("T3:delete-of-file-referenced-by-visible") {
+            errs.push((format!("failed-save:{what}:{}", v.sig), v.detail));
+        }
+    }
+    // the commit on storage must still be readable by a fresh index
+    ex.writer.take();
+    match Index::open(mon.clone()).map_err(|e| e.to_string()).and_then(|i| i.reader().map_err(|e| e.to_string())) {
+        Ok(reader) => {
+            if let Err(e) = live_ids(&reader.searcher()) {
+                errs.push((format!("failed-save:{what}:commit-on-storage-unreadable"), json!(e)));
+            }
+        }
+        Err(e) => errs.push((format!("failed-save:{what}:commit-on-storage-unreadable"), json!(e))),
+    }
+    for (sig, d) in errs {
+        rep.violation(sig, json!({"case": case, "variant": what, "detail": d}));
+    }
+    if fired {
+        rep.nontrivial(format!("failed-save:{what}:nseg={nseg}:gc_deleted={}", present_before.len() - present_after.len().min(present_before.len())));
+    }
+}
+
 fn main() {
     let ctx = Ctx::from_env("C10", "exploration");
     let mut rep = run_cases(&ctx, "hist", ctx.scale(150, 6000) as u64, history_case);
     rep.merge(run_cases(&ctx, "forced", ctx.scale(120, 6000) as u64, forced_gc_case));
     rep.merge(run_cases(&ctx, "forced-reader", ctx.scale(60, 3000) as u64, forced_reader_case));
     rep.merge(run_cases(&ctx, "crash", ctx.scale(12, 400) as u64, crash_case));
+    rep.merge(run_cases(&ctx, "failed-save", ctx.scale(60, 3000) as u64, failed_save_case));
     simple_finish(
         &ctx,
         rep,
-        "case = (a) one generated history on MonDir with the online delete monitor T3 and, at quiescent points (commit returned, merges awaited, GC run), directory == files of the committed segments + meta.json + .managed.json and .managed.json == managed files present; (b) one forced schedule with a worker or merge thread parked at its k-th file creation/write/terminate while GC and commits run; (c) recovered crash images continued with one commit + GC and checked the same way. Non-trivial = GC actually deleted files / the gate was reached / the image was recoverable; distinct = op-kind set x config, gate position, boundary kind x outcome.",
+        "case = (a) one generated history on MonDir with the online delete monitor T3 and, at quiescent points (commit returned, merges awaited, GC run), directory == files of the committed segments + meta.json + .managed.json and .managed.json == managed files present; (b) one forced schedule with a worker or merge thread parked at its k-th file creation/write/terminate while GC and commits run; (c) recovered crash images continued with one commit + GC and checked the same way; (d) a failing meta.json write (commit / prepare+commit / end of a merge) followed by GC on the same writer: the commit still on storage keeps every file. Non-trivial = GC actually deleted files / the gate was reached / the image was recoverable; distinct = op-kind set x config, gate position, boundary kind x outcome.",
         ctx.scale(40, 200),
         &["quiescence is reached by wait_merging_threads + a new writer + explicit garbage_collect_files", "crash images follow the durability model of DESIGN.md §3.1"],
     );
